@@ -75,6 +75,11 @@ class InstBundleElabPass(ElabPass):
                     new_inst.connect(portname, _bundle_ref(conn, signame))
 
             elif isinstance(conn, AnonymousBundle):
+                extra = [n for n in conn._namespace if n not in signal_names_to_instances]
+                if extra:
+                    msg = f"Invalid connection to `{portname}` on `InstanceBundle` {instbundle.name}: "
+                    msg += f"has `{extra}`, which are not in {instbundle.bundle}"
+                    self.fail(msg)
                 for signame, new_inst in signal_names_to_instances.items():
                     new_inst.connect(portname, conn.get(signame))
 
